@@ -9,6 +9,7 @@ THEOREMS = ['hidden_irrelevant', 'edit_hidden_layer', 'noncovering_irrelevant',
             'alpha_invisible_cell_irrelevant', 'alpha_invisible_cell_irrelevant_covered_below',
             'alpha_invisible_cell_upto_font_page', 'opaque_hides', 'layer_contribution_translates', 'translate',
             'insert_empty_alpha', 'insert_empty_alpha_upto_font_page', 'all_invisible_is_empty',
+            'determined_by_covering_visible_layers', 'determined_by_contributions',
             'get_char_spec_refines', 'get_char_spec_plain', 'get_char_never_panics_in_range',
             'small_coordinates_do_not_overflow']
 SWEEP_LEMMAS = []
@@ -105,6 +106,34 @@ def enc_case(stack, rect):
                 a += [x, y] + list(c)
     a += list(rect)
     return 'comp ' + ' '.join(map(str, a))
+
+def dec_case(case):
+    """inverse of enc_case (used by --replay to hand the recorded stacks to the model)"""
+    a = [int(x) for x in case.split()[1:]]
+    pos = [0]
+    def nx():
+        v = a[pos[0]]; pos[0] += 1; return v
+    def cell():
+        return tuple(nx() for _ in range(5))
+    term = nx() != 0
+    fonts = []
+    for _ in range(nx()):
+        page, w, h, ng = nx(), nx(), nx(), nx()
+        glyphs = []
+        for _ in range(ng):
+            ch = nx(); ln = nx(); glyphs.append((ch, [nx() for _ in range(ln)]))
+        fonts.append((page, w, h, glyphs))
+    layers = []
+    for _ in range(nx()):
+        vis, alpha, mode, ox, oy, hp, px, py, w, h, dfp, build = [nx() for _ in range(12)]
+        L = mk_layer(visible=bool(vis), alpha=bool(alpha), mode=mode, off=(ox, oy), preview=(px, py) if hp else None, w=w, h=h, dfp=dfp)
+        if build == 0:
+            L['rows'] = [[cell() for _ in range(nx())] for _ in range(nx())]
+        else:
+            L['sets'] = [(nx(), nx(), cell()) for _ in range(nx())]
+        layers.append(L)
+    rect = (nx(), nx(), nx(), nx())
+    return {'term': term, 'fonts': fonts, 'layers': layers}, rect
 
 def z(v):
     return str(v) if v >= 0 else '(%d)' % v
@@ -239,7 +268,7 @@ def get_font0(ctx):
 
 def correspondence(ctx):
     font0 = get_font0(ctx)
-    n = ctx.n(300, 10000)
+    n = ctx.n(600, 10000)
     items = []
     for i in range(n):
         k = i % 10
@@ -395,18 +424,20 @@ def law_instances(rng, st):
     out.append(('insert_empty_alpha', st, B, union_rect(base_rect, stack_rect(B['layers'])), (0, 0), None))
     return out
 
-def run_laws(ctx, stacks_with_tag):
+def run_laws(ctx, stacks_with_tag, seeds=None):
+    import random
     inst = []
-    for tag, st in stacks_with_tag:
-        for li in law_instances(ctx.rng, st):
-            inst.append((tag,) + li)
+    for idx, (tag, st) in enumerate(stacks_with_tag):
+        seed = seeds[idx] if seeds is not None else ctx.rng.getrandbits(48)
+        for li in law_instances(random.Random(seed), st):
+            inst.append((tag, idx, seed) + li)
     cases = []
-    for (tag, law, A, B, rect, d, keep) in inst:
+    for (tag, idx, seed, law, A, B, rect, d, keep) in inst:
         cases.append(enc_case(A, rect))
         cases.append(enc_case(B, (rect[0] + d[0], rect[1] + d[1], rect[2] + d[0], rect[3] + d[1])))
     res = ctx.impl(cases)
     failures = []; nontrivial = 0; compared = 0; per_law = {}
-    for i, (tag, law, A, B, rect, d, keep) in enumerate(inst):
+    for i, (tag, idx, seed, law, A, B, rect, d, keep) in enumerate(inst):
         ra, rb = res[2*i], res[2*i+1]
         per_law[law] = per_law.get(law, 0) + 1
         if ra is None or rb is None or ra[0] != 'ok' or rb[0] != 'ok':
@@ -426,10 +457,54 @@ def run_laws(ctx, stacks_with_tag):
                 failures.append({'signature': 'law-%s-violated' % law,
                                  'input': {'law': law, 'a': cases[2*i], 'b': cases[2*i+1], 'pos': list(p), 'delta': list(d)},
                                  'impl': {'a': list(a), 'b': list(b)}, 'expected': 'equal cells (invisible compared as invisible only)',
-                                 'detail': 'law %s: get_char differs at %r between the two stacks the law relates (%s stack)' % (law, p, tag)})
+                                 'detail': 'law %s: get_char differs at %r between the two stacks the law relates (%s stack)' % (law, p, tag),
+                                 '_stack': idx, '_seed': seed})
                 break
         if seen_visible: nontrivial += 1
     return len(cases), failures, nontrivial, compared, per_law
+
+def shrink_candidates(st):
+    """smaller stacks: one layer removed; one layer's cells halved / reduced to one; a layer made 1 cell smaller"""
+    out = []
+    ls = st['layers']
+    def with_layers(x):
+        s2 = dict(st); s2['layers'] = x; return s2
+    if len(ls) > 1:
+        for k in range(len(ls)):
+            out.append(with_layers(ls[:k] + ls[k+1:]))
+    for k, L in enumerate(ls):
+        if L['sets']:
+            n = len(L['sets'])
+            parts = [L['sets'][:n // 2], L['sets'][n // 2:]] if n > 1 else [[]]
+            if n <= 6: parts += [L['sets'][:i] + L['sets'][i+1:] for i in range(n)]
+            for part in parts:
+                M = dict(L); M['sets'] = part
+                out.append(with_layers(ls[:k] + [M] + ls[k+1:]))
+        if L['rows']:
+            M = dict(L); M['rows'] = L['rows'][:len(L['rows']) // 2]
+            out.append(with_layers(ls[:k] + [M] + ls[k+1:]))
+        if L['w'] > 1 and L['sets'] is not None:
+            M = dict(L); M['w'] = L['w'] - 1; out.append(with_layers(ls[:k] + [M] + ls[k+1:]))
+        if L['h'] > 1 and L['sets'] is not None:
+            M = dict(L); M['h'] = L['h'] - 1; out.append(with_layers(ls[:k] + [M] + ls[k+1:]))
+    return out
+
+def minimise(ctx, failure, stack, seed, rounds=14):
+    """greedy shrinking of the stack a law failed on: keep a smaller stack whenever the same law still fails on it
+    (the law's own random choices are re-drawn from a few fixed seeds)"""
+    sig = failure['signature']
+    best = failure; cur = stack
+    for _ in range(rounds):
+        cands = shrink_candidates(cur)
+        if not cands: break
+        seeds = [seed, seed + 1, seed + 2]
+        tagged = [('shrunk', c) for c in cands for _s in seeds]
+        _, fs, _, _, _ = run_laws(ctx, tagged, seeds=[sd for c in cands for sd in seeds])
+        hit = [f for f in fs if f['signature'] == sig]
+        if not hit: break
+        hit.sort(key=lambda f: len(str(f['input'])))
+        best = hit[0]; cur = tagged[best['_stack']][1]; seed = best['_seed']
+    return best
 
 def search(ctx, broken):
     stacks = []
@@ -441,10 +516,24 @@ def search(ctx, broken):
     stacks.append(('regression', witness_chars_invisible()))
     for st, _ in directed_stacks():
         if st['layers']: stacks.append(('directed', st))
-    for _ in range(ctx.n(400, 12000)):
+    for _ in range(ctx.n(2000, 6500)):
         stacks.append(('random', gen_stack_quant(ctx.rng, term_p=0.1)))
     ncases, failures, nontrivial, compared, per_law = run_laws(ctx, stacks)
     failures.sort(key=lambda f: len(str(f['input'])))
+    # minimise the first failure of each signature (the one the driver reports)
+    first = {}
+    for f in failures:
+        first.setdefault(f['signature'], f)
+    for sig, f in list(first.items())[:8]:
+        try:
+            m = minimise(ctx, f, stacks[f['_stack']][1], f['_seed'])
+        except Exception as ex:
+            m = f
+        if m is not f:
+            failures.insert(0, m)
+    failures.sort(key=lambda f: len(str(f['input'])))
+    for f in failures:
+        f.pop('_stack', None); f.pop('_seed', None)
     return {'cases': ncases, 'failures': failures, 'distinct_nontrivial': nontrivial, 'positions_compared': compared,
             'law_instances': per_law, 'samples': [enc_case(stacks[-1][1], stack_rect(stacks[-1][1]['layers']))[:400]]}
 
@@ -465,6 +554,13 @@ def replay(ctx, body):
     ga = grid(ra[1], r); gb = grid(rb[1], rect_of(inp['b']))
     p = tuple(inp['pos']); q = (p[0] + d[0], p[1] + d[1])
     print('implementation, stack a at %r: %r' % (p, ga[p])); print('implementation, stack b at %r: %r' % (q, gb[q]))
+    try:
+        sa, _ = dec_case(inp['a']); sb, _ = dec_case(inp['b'])
+        m = ctx.model(coq_header(get_font0(ctx)), [coq_case(sa, (p[0], p[1], p[0], p[1])), coq_case(sb, (q[0], q[1], q[0], q[1]))])
+        print('model,          stack a at %r: %r' % (p, tuple(m[0]) if m[0] else m[0])); print('model,          stack b at %r: %r' % (q, tuple(m[1]) if m[1] else m[1]))
+    except Exception as ex:
+        print('model evaluation failed: %r' % ex)
+    print('oracle: cells %s (invisible compared as invisible only)' % ('EQUAL' if eqv(ga[p], gb[q]) else 'DIFFER'))
     return 0 if eqv(ga[p], gb[q]) else 1
 
 LEVEL_TEXT = ('Machine-checked proof (Coq, closed under the global context) of the stacking laws of Buffer::get_char for stacks of any '
